@@ -4,6 +4,10 @@ package bifs
 
 // C16 — Miller's own arithmetic around the calendar: the d/h/m/s split.
 
+import (
+	"github.com/johnkerl/miller/v6/pkg/mlrval"
+)
+
 // splitIntToDHMS for ALL int64: the parts recombine to the input, the leading non-zero unit
 // carries the sign and the others lie in [0,24) / [0,60).
 //verif:opts cap=120000
@@ -54,4 +58,43 @@ func VerifC16_split_dhms() {
 	rs, rm, rh, rd := um%60, q1%60, q2%24, q2/24
 	verifAssert(uint64(abs(s)) == rs && uint64(abs(m)) == rm && uint64(abs(h)) == rh && uint64(abs(d)) == rd, "C16/dhms/parts-are-the-textbook-split")
 	verifReach("C16/dhms/end")
+}
+
+// sec2hms/hms2sec and sec2dhms/dhms2sec are mutually inverse on integers, negatives included.
+// The texts are produced by fmt and parsed by fmt.Sscanf, which the engine only runs on concrete
+// values, so x is a symbolic offset inside one of a palette of 60-second windows (around zero, the
+// minute, hour, day and year boundaries of both signs, and both ends of int64) that the solver
+// enumerates completely (verifConcretize): every integer of every window is decided.
+func c16WindowInt() int64 {
+	bases := []int64{-30, 31, 3570, -3630, 86370, -86430, 31535970, -31536030, 359970, -360030,
+		-9223372036854775808, 9223372036854775807 - 59}
+	if verifTier() > 0 {
+		bases = append(bases, 100*86400-30, -100*86400-30, 1<<31-30, -(1 << 31) - 30, 1<<53-30, -(1 << 53) - 30)
+	}
+	b := bases[verifChoice("window", len(bases))]
+	off := verifInt64("offset")
+	verifAssume(off >= 0 && off < 60)
+	return verifConcretize(b+off, 64)
+}
+
+//verif:opts maxpaths=20000
+func VerifC16_int_inverse_pairs() {
+	x := c16WindowInt()
+	hms := BIF_sec2hms(mlrval.FromInt(x))
+	verifAssert(hms.IsStringOrVoid() && !hms.IsError(), "C16/hms/sec2hms-gives-text")
+	back := BIF_hms2sec(mlrval.FromString(hms.String()))
+	verifAssert(back.IsInt() && back.AcquireIntValue() == x, "C16/hms/hms2sec-inverts-sec2hms")
+	dhms := BIF_sec2dhms(mlrval.FromInt(x))
+	verifAssert(dhms.IsStringOrVoid() && !dhms.IsError(), "C16/dhms/sec2dhms-gives-text")
+	back2 := BIF_dhms2sec(mlrval.FromString(dhms.String()))
+	verifAssert(back2.IsInt() && back2.AcquireIntValue() == x, "C16/dhms/dhms2sec-inverts-sec2dhms")
+	// the float renderings of the same integer parse back to it (to 1e-6)
+	fx := float64(x)
+	if x > -(1<<53) && x < 1<<53 {
+		fh := BIF_hms2fsec(mlrval.FromString(BIF_fsec2hms(mlrval.FromFloat(fx)).String()))
+		verifAssert(fh.IsFloat() && fh.AcquireFloatValue()-fx <= 1e-6 && fx-fh.AcquireFloatValue() <= 1e-6, "C16/fhms/hms2fsec-inverts-fsec2hms")
+		fd := BIF_dhms2fsec(mlrval.FromString(BIF_fsec2dhms(mlrval.FromFloat(fx)).String()))
+		verifAssert(fd.IsFloat() && fd.AcquireFloatValue()-fx <= 1e-6 && fx-fd.AcquireFloatValue() <= 1e-6, "C16/fdhms/dhms2fsec-inverts-fsec2dhms")
+	}
+	verifReach("C16/inverse/end")
 }
